@@ -26,7 +26,11 @@ ASSUMPTIONS = ['reference model: the status seen inside a node is a function of 
                'requested conversion called while the status is DISABLED runs unconverted and stays DISABLED)',
                'scheduling points are the traced lines of the two context modules; code in between touches no shared state']
 
-KINDS = ('convert', 'convlam', 'rec', 'dnc', 'iconv_E', 'iconv_D', 'iconv_UT', 'iconv_UF', 'with_E', 'with_D', 'with_U', 'plain', 'lam')
+# iconv_P: internal_convert with the context object that was current *before the parent node was called* (the documented
+# pattern: capture control_status_ctx() outside, call internal_convert(fn, ctx)() further in) - the same object is then on the
+# stack twice with the parent's context in between
+KINDS = ('convert', 'convlam', 'rec', 'dnc', 'iconv_E', 'iconv_D', 'iconv_UT', 'iconv_UF', 'with_E', 'with_D', 'with_U', 'plain', 'lam',
+         'iconv_P')
 SRC = '''
 def run_node(i):
     obs(i, 'in')
@@ -117,7 +121,9 @@ def setup(tier, seed):
 
   class NodesProxy(object):
     def __getitem__(self, j):
-      return W().nodes[j]
+      w = W()
+      w.before_call[j] = ag_ctx.control_status_ctx()
+      return w.nodes[j]
   g['NODES'] = NodesProxy()
   exec(compile(SRC, fname, 'exec'), g)  # pylint:disable=exec-used
   _S['g'] = g
@@ -139,6 +145,7 @@ class World(object):
     self.catcher = catcher    # node or None
     self.log = []
     self.viol = []
+    self.before_call = {}
     self.kids = {}
     for j, p in enumerate(self.parent):
       if p is not None:
@@ -154,6 +161,8 @@ class World(object):
         fn = base
       elif k == 'dnc':
         fn = malt.experimental.do_not_convert(base)
+      elif k == 'iconv_P':
+        fn = self._captured_ctx_node(i, base)
       elif k.startswith('iconv_'):
         st = {'E': S.ENABLED, 'D': S.DISABLED, 'U': S.UNSPECIFIED}[k[6]]
         ctx = ag_ctx.ControlStatusCtx(st)
@@ -162,6 +171,18 @@ class World(object):
       elif k.startswith('with_'):
         fn = base
       self.nodes.append(fn)
+
+  def _captured_ctx_node(self, i, base):
+    api = _S['api']
+    ag_ctx = _S['ag_ctx']
+
+    def call(j):
+      p = self.parent[i]
+      ctx = self.before_call.get(p) if p is not None else None
+      if ctx is None:
+        ctx = ag_ctx.control_status_ctx()
+      return api.internal_convert(base, ctx)(j)
+    return api.autograph_artifact(call)
 
   # --- callbacks from the generic node bodies
   def children(self, i):
@@ -193,7 +214,9 @@ class World(object):
           j, self.kinds[j], i, after, before)))
 
   # --- reference model
-  def expected_inside(self, kind, cur):
+  def expected_inside(self, kind, cur, before_parent='UNSPECIFIED'):
+    if kind == 'iconv_P':
+      return before_parent
     if kind in ('convert', 'convlam'):
       return 'DISABLED' if cur == 'DISABLED' else 'ENABLED'
     if kind == 'dnc' or kind == 'iconv_D' or kind == 'with_D':
@@ -208,9 +231,9 @@ class World(object):
     """Expected observation log from the list-as-stack reference model."""
     out = []
 
-    def run(i, cur):
+    def run(i, cur, before_parent='UNSPECIFIED'):
       kind = self.kinds[i]
-      inside = self.expected_inside(kind, cur)
+      inside = self.expected_inside(kind, cur, before_parent)
       if kind.startswith('with_'):
         out.append((i, 'pre', cur))
       out.append((i, 'in', inside))
@@ -219,14 +242,14 @@ class World(object):
       for j in self.kids.get(i, []):
         if self.catcher == i:
           try:
-            run(j, inside)
+            run(j, inside, cur)
           except NodeError:
             out.append((i, 'caught', inside))
           finally:
             out.append((i, 'after-child', j, True))
         else:
           try:
-            run(j, inside)
+            run(j, inside, cur)
           finally:
             out.append((i, 'after-child', j, True))
       if self.raiser is not None and self.raiser[:2] == (i, 'exit'):
@@ -244,6 +267,7 @@ class World(object):
     _S['tl'].world = self
     before = ag_ctx.control_status_ctx()
     depth = len(ag_ctx._control_ctx())
+    self.before_call[0] = before
     try:
       self.nodes[0](0)
       self.log.append(('end', 'ret'))
